@@ -128,6 +128,12 @@ fn materialise_and_open(k: &Value) -> Vec<(String, String)> {
             for i in 0..k["sheets"].as_u64().unwrap() {
                 wb.sheets.push(biff::Sheet { name: biff::XlStr::new(&format!("S{}", i + 1)), dims: None, recs: vec![biff::Rec::Number { r: 0, c: 0, xf: 0, v: 1.0 }] });
             }
+            if k["protect"].as_bool().unwrap_or(false) {
+                // workbook structure / window protection with a password verifier: not encryption
+                wb.globals_extra.push(biff::Rec::Raw { typ: 0x0012, data: vec![1, 0] });
+                wb.globals_extra.push(biff::Rec::Raw { typ: 0x0013, data: vec![0x34, 0x12] });
+                wb.globals_extra.push(biff::Rec::Raw { typ: 0x0019, data: vec![1, 0] });
+            }
             let mut s = biff::workbook_stream(&wb);
             let fp = k["filepass"].as_str().unwrap();
             if fp != "none" {
@@ -262,7 +268,7 @@ pub fn drive(args: &Args) -> i32 {
         let k = match if big { 0 } else { rng.gen_range(0..4) } {
             0 => json!({"kind": "ooxml", "size": size, "info": info, "layout": if big { "rev".to_string() } else { lay.clone() }, "dataspaces": rng.gen_bool(0.5)}),
             1 => json!({"kind": "plaincfb", "content": content, "layout": lay}),
-            2 => json!({"kind": "biff", "filepass": fp, "after_writeprotect": rng.gen_bool(0.5), "sheets": rng.gen_range(1..3)}),
+            2 => json!({"kind": "biff", "filepass": fp, "after_writeprotect": rng.gen_bool(0.5), "protect": rng.gen_bool(0.5), "sheets": rng.gen_range(1..3)}),
             _ => json!({"kind": "ods", "entries": (0..rng.gen_range(1..4)).map(|_| rng.gen_bool(0.4)).collect::<Vec<_>>()}),
         };
         for (reader, got) in materialise_and_open(&k) {
